@@ -5,7 +5,7 @@ Import ListNotations.
 From FP Require Import Lin Blocks BlocksProofs PathEnc Euler EulerProofs1 EulerProofs4 DagDecode PathEncProofs
                        PathEncComplete WfCheck CheckedInstances
                        ErrEnc ErrEncProofs ErrEncProofs2 ErrEncProofs3 ErrEncComplete ErrEncOptimal ErrEncKlae ErrEncOptimal2
-                       ErrEncChecked ErrEncExamples.
+                       ErrEncGiven ErrEncGivenMpe ErrEncChecked ErrEncExamples.
 Local Close Scope Q_scope.
 
 (* THE property with executable premises (kmpe_premises_b is evaluated by the extracted driver on every E1 instance), for
@@ -73,8 +73,21 @@ Theorem C08_kmpe_optimal : forall (M : kmpe_inst) (a : var -> Q) (rank : node ->
 Proof. exact kmpe_optimal. Qed.
 Print Assumptions C08_kmpe_optimal.
 
-(* NOT covered by the completeness / optimality theorems: path-length factors (feasibility refuted below: open findings) and
-   the given-weights variant (tied by E1 and E2 only). *)
+(* solution_weights_superset (no subpath constraints, no length factors): layer i carries the constant weight ws[i], may be
+   empty, at most k_orig layers are used; the LP optimum is the minimum of the slack sum over all such choices with slacks
+   within [0, w_max] *)
+Theorem C08_kmpe_given_optimal : forall (M : kmpe_inst) (ws : list Q) (a : var -> Q) (rank : node -> nat) (Rm : nat),
+  e_given (m_err M) = Some ws -> m_pieces M = [] -> wf_graph (eG (m_err M)) -> p_allow_empty (e_base (m_err M)) = true ->
+  p_cons (e_base (m_err M)) = [] -> length ws = eK (m_err M) -> lengths_ok M ->
+  (forall u v, In (u, v) (g_edges (eG (m_err M))) -> (rank u < rank v)%nat) -> (forall v, (rank v <= Rm)%nat) ->
+  sat a (encode_kmpe M) -> (forall b, sat b (encode_kmpe M) -> (objective a (encode_kmpe M) <= objective b (encode_kmpe M))%Q) ->
+  (exists P sl, kmpe_given_choice M ws P sl /\ (sumq sl (layers (eK (m_err M))) == objective a (encode_kmpe M))%Q) /\
+  (forall P sl, kmpe_given_choice M ws P sl -> (objective a (encode_kmpe M) <= sumq sl (layers (eK (m_err M))))%Q).
+Proof. exact kmpe_given_optimal. Qed.
+Print Assumptions C08_kmpe_given_optimal.
+
+(* NOT covered by the completeness / optimality theorems: path-length factors (feasibility refuted below: open findings),
+   and given weights together with subpath constraints. *)
 
 Theorem C08_kmpe_enc_sound : forall (M : kmpe_inst) (a : var -> Q) (rank : node -> nat) (Rm : nat),
   let I := m_err M in let G := eG I in let k := eK I in
@@ -150,3 +163,7 @@ Example C08_checked_nonvacuous :
   (forall b, sat b (encode_kmpe wit_kmpe_f) -> (objective wit_kmpe_f_a (encode_kmpe wit_kmpe_f) <= objective b (encode_kmpe wit_kmpe_f))%Q) /\
   (objective wit_kmpe_f_a (encode_kmpe wit_kmpe_f) == 2 # 3)%Q.
 Proof. exact kmpe_checked_nonvacuous. Qed.
+
+Example C08_given_example : sat (gmasg wit_given_M wit_given_P (fun _ => 2%Q)) (encode_kmpe wit_given_M) /\
+                            (objective (gmasg wit_given_M wit_given_P (fun _ => 2%Q)) (encode_kmpe wit_given_M) == 2)%Q.
+Proof. exact kmpe_given_example. Qed.
